@@ -5,6 +5,7 @@ import (
 	"crypto/tls"
 	"fmt"
 	"net"
+	"strings"
 	"sync"
 	"time"
 
@@ -23,7 +24,8 @@ const (
 	Acme = "acme.tunlab-zone.test"
 )
 
-// Resolver is a scripted tun.DNSResolver that records its lookups.
+// Resolver is a scripted tun.DNSResolver that records its lookups. Like the
+// DNS it matches names case-insensitively.
 type Resolver struct {
 	mu      sync.Mutex
 	answers map[string]string
@@ -36,18 +38,21 @@ func NewResolver() *Resolver {
 }
 
 func (r *Resolver) Set(name, cname string) {
+	name = strings.ToLower(name)
 	r.mu.Lock()
 	r.answers[name] = cname
 	delete(r.errs, name)
 	r.mu.Unlock()
 }
 func (r *Resolver) SetErr(name string, err error) {
+	name = strings.ToLower(name)
 	r.mu.Lock()
 	r.errs[name] = err
 	delete(r.answers, name)
 	r.mu.Unlock()
 }
 func (r *Resolver) Clear(name string) {
+	name = strings.ToLower(name)
 	r.mu.Lock()
 	delete(r.errs, name)
 	delete(r.answers, name)
@@ -57,6 +62,7 @@ func (r *Resolver) LookupCNAME(_ context.Context, host string) (string, error) {
 	r.mu.Lock()
 	defer r.mu.Unlock()
 	r.Lookups = append(r.Lookups, host)
+	host = strings.ToLower(host)
 	if e, ok := r.errs[host]; ok {
 		return "", e
 	}
